@@ -262,12 +262,19 @@ func checkLeafProducers(c *core.Ctx, rule string) {
 			}
 			c.Check(okP, rule, name, "the count field noTag=len(entries) precedes the entries", fn.Pos(), got, "the group does not start with exactly one count field noTag=len(items): "+got)
 			paths, _ := an.EnumPaths(fn, 256)
-			okEmpty := false
+			// every returning path that an empty entry list can take returns nil (any spelling of the emptiness test), and there is one
+			okEmpty, nNil := true, 0
 			for _, p := range paths {
-				if p.Return != nil && p.Has("len(g.items) == 0") && p.Results[0] == "nil" {
-					okEmpty = true
+				if p.Return == nil || len(p.Results) != 1 || !an.PathFeasible(p, an.Atom{L: "len(g.items)", Rel: "==", R: "0"}) {
+					continue
+				}
+				if p.Results[0] == "nil" {
+					nNil++
+				} else {
+					okEmpty = false
 				}
 			}
+			okEmpty = okEmpty && nNil > 0
 			c.Check(okEmpty, rule, name, "a group without entries emits nothing", fn.Pos(), "len(items) == 0 → nil", "a group without entries does not return nil")
 		}
 	}
